@@ -19,8 +19,8 @@ package main
 //     substitution, locals resolved through their single definition).  Lean then decides, over these regenerated tables,
 //     that the method's own `Validate` entails every requirement (obligation `run_sites_ok`).
 //
-// This file hooks itself in with init() because go/extractt/main.go belongs to C17: it reads -repo/-out from os.Args,
-// loads only the packages it needs and writes its own file.  (Shared-file request: call extractC20Run from main.)
+// extractC20Run is called from main() in main.go after flag parsing; it loads only the packages it needs and writes
+// its own file.
 
 import (
 	"fmt"
@@ -42,31 +42,6 @@ import (
 
 const c20Mod = "github.com/functionx/fx-core/v8/"
 
-func init() {
-	repo, out := "/repo", ""
-	for i, a := range os.Args {
-		for _, f := range []struct {
-			name string
-			dst  *string
-		}{{"repo", &repo}, {"out", &out}} {
-			for _, dash := range []string{"-", "--"} {
-				if a == dash+f.name && i+1 < len(os.Args) {
-					*f.dst = os.Args[i+1]
-				}
-				if strings.HasPrefix(a, dash+f.name+"=") {
-					*f.dst = strings.TrimPrefix(a, dash+f.name+"=")
-				}
-			}
-		}
-	}
-	if out == "" {
-		return
-	}
-	if err := extractC20Run(repo, out); err != nil {
-		fmt.Fprintln(os.Stderr, "extractt(C20):", err)
-		os.Exit(1)
-	}
-}
 
 type c20Field struct{ Go, Abi, Kind string }
 
